@@ -8,7 +8,8 @@
     the options. *)
 From Coq Require Import List NArith ZArith Arith Bool.
 From Tongo Require Import Lib.Bits Lib.Res Spec.Sha256 Model.BocParse Model.CellHash Spec.ReprHash
-  Model.Wallet Model.WalletSend Proofs.WalletP Proofs.WalletSigP Proofs.WalletSendP.
+  Model.Wallet Model.WalletSend Proofs.WalletP Proofs.WalletSigP Proofs.WalletSendP Proofs.WalletDataP.
+From Tongo Require Spec.Dict Model.Hashmap.
 Import ListNotations.
 
 (** The address is (int32 workchain, hash of the StateInit cell 00110 ^code ^data)
@@ -138,17 +139,66 @@ Theorem C15_next_params_highload :
     end.
 Proof. exact next_params_highload. Qed.
 
-(** the seqno read from on-chain data of the version's layout is the stored one *)
-Theorem C15_seqno_of_own_data :
-  forall s (a b : N) (pk : bits) (flag : bool) (wid80 : bits),
+(** On EVERY well-formed data cell of a version (any seqno, ids, key, flag, any
+    dictionary of plugins / extensions / old queries with distinct keys of the
+    key width and values of the value width, serialised by the encoder of C05)
+    the data struct decodes to exactly its fields, keys in ascending order ... *)
+Theorem C15_decode_wellformed_data :
+  forall s (a t : N) (pk : bits) (flag : bool) (wid80 : bits) kvs bit refs,
+  length pk = 256%nat -> length wid80 = 80%nat ->
+  let keys := map fst (Hashmap.bsort kvs) in
+  (decode_data V3R1 (ocell (u32 s ++ u32 a ++ pk) []) =
+     Ok (mkwd (s mod 4294967296) (a mod 4294967296) pk false 0 []) /\
+   decode_data V3R2 (ocell (u32 s ++ u32 a ++ pk) []) =
+     Ok (mkwd (s mod 4294967296) (a mod 4294967296) pk false 0 [])) /\
+  (wf_dict 264 0 kvs -> dict_field 264 kvs bit refs ->
+   decode_data V4R1 (ocell (u32 s ++ u32 a ++ pk ++ bit) refs) =
+     Ok (mkwd (s mod 4294967296) (a mod 4294967296) pk false 0 keys) /\
+   decode_data V4R2 (ocell (u32 s ++ u32 a ++ pk ++ bit) refs) =
+     Ok (mkwd (s mod 4294967296) (a mod 4294967296) pk false 0 keys)) /\
+  (wf_dict 256 8 kvs -> dict_field 256 kvs bit refs ->
+   decode_data V5Beta (ocell (bits_of 33 s ++ wid80 ++ pk ++ bit) refs) =
+     Ok (mkwd (s mod 8589934592) (N_of_bits wid80) pk false 0 keys)) /\
+  (wf_dict 256 1 kvs -> dict_field 256 kvs bit refs ->
+   decode_data V5R1 (ocell ([flag] ++ u32 s ++ u32 a ++ pk ++ bit) refs) =
+     Ok (mkwd (s mod 4294967296) (a mod 4294967296) pk flag 0 keys)) /\
+  (wf_dict 64 0 kvs -> dict_field 64 kvs bit refs ->
+   decode_data HLV2R2 (ocell (u32 a ++ u64 t ++ pk ++ bit) refs) =
+     Ok (mkwd 0 (a mod 4294967296) pk false (t mod 18446744073709551616) keys)).
+Proof. exact decode_wellformed_data. Qed.
+
+(** ... so the seqno NextMessageParams reads from an active account is the stored
+    one whatever plugins / extensions are installed (with C15_next_params_spec:
+    that seqno and no state-init). *)
+Theorem C15_seqno_of_wellformed_data :
+  forall s (a : N) (pk : bits) (flag : bool) (wid80 : bits) kvs bit refs,
   (s < 4294967296)%N -> length pk = 256%nat -> length wid80 = 80%nat ->
   seqno_of_data V3R1 (ocell (u32 s ++ u32 a ++ pk) []) = Ok s /\
   seqno_of_data V3R2 (ocell (u32 s ++ u32 a ++ pk) []) = Ok s /\
-  seqno_of_data V4R1 (ocell (u32 s ++ u32 a ++ pk ++ [false]) []) = Ok s /\
-  seqno_of_data V4R2 (ocell (u32 s ++ u32 a ++ pk ++ [false]) []) = Ok s /\
-  seqno_of_data V5Beta (ocell (bits_of 33 s ++ wid80 ++ pk ++ [false]) []) = Ok s /\
-  seqno_of_data V5R1 (ocell ([flag] ++ u32 s ++ u32 b ++ pk ++ [false]) []) = Ok s.
-Proof. exact seqno_of_own_data. Qed.
+  (wf_dict 264 0 kvs -> dict_field 264 kvs bit refs ->
+   seqno_of_data V4R1 (ocell (u32 s ++ u32 a ++ pk ++ bit) refs) = Ok s /\
+   seqno_of_data V4R2 (ocell (u32 s ++ u32 a ++ pk ++ bit) refs) = Ok s) /\
+  (wf_dict 256 8 kvs -> dict_field 256 kvs bit refs ->
+   seqno_of_data V5Beta (ocell (bits_of 33 s ++ wid80 ++ pk ++ bit) refs) = Ok s) /\
+  (wf_dict 256 1 kvs -> dict_field 256 kvs bit refs ->
+   seqno_of_data V5R1 (ocell ([flag] ++ u32 s ++ u32 a ++ pk ++ bit) refs) = Ok s).
+Proof. exact seqno_of_wellformed_data. Qed.
+Print Assumptions C15_seqno_of_wellformed_data.
+
+(** non-vacuity of the dictionary premises: a v5r1 data cell with two installed
+    extensions (1-bit values) *)
+Example C15_wellformed_data_satisfiable :
+  let kvs := [(zeros 255 ++ [true], Dict.Cell [true] []); (true :: zeros 255, Dict.Cell [true] [])] in
+  wf_dict 256 1 kvs /\
+  exists root, Hashmap.encode Hashmap.venc_any 256 kvs = Ok root /\ dict_field 256 kvs [true] [of_dict root].
+Proof.
+  cbn zeta. split.
+  - split; [|split].
+    + repeat constructor; cbn; intuition discriminate.
+    + repeat constructor.
+    + repeat constructor.
+  - vm_compute. eexists. split; [reflexivity|]. eexists. split; [reflexivity|]. split; reflexivity.
+Qed.
 
 (** Confirmation: for EVERY poll history (elapsed time read by the loop
     condition, answer or error of GetSeqno) the loop succeeds iff some poll
